@@ -663,7 +663,10 @@ def evaluate_gen(rec, spec, forced=None, tag=None, built=None, do_process=True):
         table_ = charac_table(spec, t_)
         for i, name in enumerate(rows):
             mem = {cols[j] for j in range(len(cols)) if A_exp[i][j]}
-            invariant = all((j in mem and dests[j] <= mem) or (j not in mem and not (dests[j] & mem)) for j in juncs_full)
+            mult = {cols[j]: A_exp[i][j] for j in range(len(cols))}
+            # the flush moves a junction's content ONCE into its (transitive) destinations: the row's sum is unchanged only if the junction
+            # and every destination are counted with the SAME multiplicity (overlapping includes can count a junction twice), or neither is counted
+            invariant = all((j in mem and all(mult.get(d, 0) == mult[j] for d in dests[j])) or (j not in mem and not (dests[j] & mem)) for j in juncs_full)
             if not invariant:
                 rec.count("index0.row_changed_by_flush(compared via flushAll)")
                 continue
